@@ -127,12 +127,7 @@ def replay_one(col, bs, root, seed, bi):
                         bad = 'write_parameters prints parameters %r next to %s; its row of the parameter file is %r' % (row[5:], want_name, (pars[0][want_name], pars[1][want_name]))
                     elif len(rec.chi2) > 1 and not (rec.chi2[1] > 1e-9 or (dark and names_rec[1] == 'mod_0dark')):
                         bad = 'a second model also fits exactly although the grid is non-degenerate'
-                if not bad and dark:
-                    # spec DarkLast: the model with zero flux in a fitted band has chi^2 = NaN (or the 1e30 that replaces an infinite chi^2) and is ranked last
-                    if names_rec[-1] != 'mod_0dark' or not (np.isnan(float(rec.chi2[-1])) or float(rec.chi2[-1]) >= 1e30):
-                        bad = 'the model with zero flux in band %d is ranked %r with chi2 %r; spec: last, NaN or >= 1e30' % (
-                            dark, (names_rec.index('mod_0dark') + 1) if 'mod_0dark' in names_rec else None,
-                            float(rec.chi2[names_rec.index('mod_0dark')]) if 'mod_0dark' in names_rec else None)
+                # (where the dark model itself ends up is not C08's business -- only that it does not displace the planted one)
             if bad:
                 col.violation('C08:%s:%s' % (mode, fmt), '%s package, %s mode, table order %r, source %d of %d in the run: %s' % (fmt, mode, names, si + 1, len(bs), bad),
                               dict(desc, cfg=cfg, src=bb['src'], all_sources=[x['cfg'] for x in bs]))
